@@ -8,8 +8,10 @@ import (
 )
 
 func defC06(mode int) *ph.Def {
-	return &ph.Def{Mode: mode, Unknown: 2, Help: "help", HelpAliases: []string{"?", "h"}, Root: ph.CmdDef{Name: "prog",
+	return &ph.Def{Mode: mode, Unknown: 2, MapLower: true, Help: "help", HelpAliases: []string{"?", "h"}, Root: ph.CmdDef{Name: "prog",
 		Opts: []ph.OptDef{
+			{Name: "pre", Kind: ph.Str, DefS: "PD", PreValue: []string{"from-config"}},                                  // gets a value through SetValue before Parse
+			{Name: "defs", Kind: ph.Map, Min: 1, Max: 1, Preset: [][2]string{{"Mode", "fast"}}, Aliases: []string{"D"}}, // the returned map already holds a mixed-case key; SetMapKeysToLower is on
 			{Name: "bool", Kind: ph.Bool, Aliases: []string{"b", "é"}, Env: "VERIF_C06_BOOL"},
 			{Name: "str", Kind: ph.Str, Aliases: []string{"s", "string"}, Var: true, DefS: "D"},
 			{Name: "int", Kind: ph.Int, Var: true, DefI: 7, Env: "VERIF_C06_INT"},
@@ -24,12 +26,12 @@ func defC06(mode int) *ph.Def {
 }
 
 // alias groups for the metamorphic relation
-var c06Groups = [][]string{{"bool", "b", "é"}, {"str", "s", "string"}, {"inc", "i2"}, {"list", "l"}, {"opt", "o"}, {"nb", "n", "ä"}, {"help", "?", "h"}}
+var c06Groups = [][]string{{"bool", "b", "é"}, {"str", "s", "string"}, {"inc", "i2"}, {"list", "l"}, {"opt", "o"}, {"nb", "n", "ä"}, {"help", "?", "h"}, {"defs", "D"}}
 
 // long spellings of every name and alias, the short spelling (one dash, which means the same in all three modes for a
 // one-letter name without attached text) of some one-letter aliases including a multibyte one, the help option and its aliases
 var c06Alpha = []string{"--bool", "--b", "--str", "--s", "--string", "--int", "--inc", "--i2", "--list", "--l", "--opt", "--o", "--sc", "--nb", "--n", "v", "5", "p", "--zz", "c", "w", "--str=w",
-	"-b", "-é", "-s", "-o", "--help", "-?", "--h", "-ä"}
+	"-b", "-é", "-s", "-o", "--help", "-?", "--h", "-ä", "--pre=x", "--defs=Key=v", "--D=k=w"}
 
 // c06Key returns the option key a token spells (long form, or short form of a one-letter key) and whether it is such a token.
 func c06Key(t string) (string, bool) {
@@ -123,7 +125,7 @@ func init() {
 	register(&Check{
 		ID:        "C06",
 		QuickSecs: 120, ThoroSecs: 1200,
-		Rule: "input-space exploration: every argv of length <= L-1 over 30 tokens and of length L over the first 22 of them (every name and alias of 8 options of 6 kinds, half declared through *Var, one bound to an environment variable, one marked SetCalled, one with a multibyte one-letter alias; short spellings of one-letter aliases; the help option of HelpCommand and its aliases; values, positional, unknown option, command, UnsetOptions wrapper command) x 3 modes x environment {unset, valid, text that is not valid for the bound bool}; " +
+		Rule: "input-space exploration: every argv of length <= L-1 over 33 tokens and of length L over the first 22 of them (every name and alias of 8 options of 6 kinds, half declared through *Var, one bound to an environment variable, one marked SetCalled, one with a multibyte one-letter alias; short spellings of one-letter aliases; the help option of HelpCommand and its aliases; values, positional, unknown option, command, UnsetOptions wrapper command) x 3 modes x environment {unset, valid, text that is not valid for the bound bool}; " +
 			"absolute: values (pointer, *Var target and Value() agree), Called, CalledAs compared with the reference model, untouched options keep defaults; metamorphic: replacing any occurrence of a name by any other alias of the same option changes nothing but CalledAs; " +
 			"distinct_nontrivial = distinct in-domain cases",
 		Assume: []string{"argv longer than L and other option sets are not covered"},
@@ -186,16 +188,45 @@ func init() {
 // ---------------------------------------------------------------------------
 // C12: command line > environment > default
 
+// c12SecondParse: a further Parse of an empty command line on the same object changes nothing - what the environment
+// (or the earlier command line) provided is still there, still Called, still CalledAs the same name.
+func c12SecondParse(def *ph.Def, env map[string]string, argv []string) []string {
+	p := ph.Build(def, env)
+	defer p.Close()
+	o1 := p.Run(argv, false)
+	if o1.Panic != "" || o1.Hang || o1.HasErr {
+		return nil
+	}
+	p.Reset()
+	o2 := p.Run([]string{}, false)
+	if o2.Panic != "" || o2.Hang {
+		return nil
+	}
+	var out []string
+	if o2.HasErr {
+		return []string{fmt.Sprintf("second Parse (empty command line) on the same object fails: %s", o2.ParseErr)}
+	}
+	for k, v := range o1.Vals {
+		if o2.Vals[k] != v || o2.Called[k] != o1.Called[k] || o2.CalledAs[k] != o1.CalledAs[k] {
+			out = append(out, fmt.Sprintf("a second Parse of an empty command line on the same object changes option %s from %s (called=%v as %q) to %s (called=%v as %q)", k, v, o1.Called[k], o1.CalledAs[k], o2.Vals[k], o2.Called[k], o2.CalledAs[k]))
+		}
+	}
+	return out
+}
+
 func init() {
 	parserJudges["C12"] = func(pc *parserCase, verbose bool) []string {
 		msgs, _ := judgeSpec(pc, c06Facets, verbose)
+		if len(msgs) == 0 {
+			msgs = c12SecondParse(pc.Def, pc.Env, pc.Argv)
+		}
 		return msgs
 	}
 	register(&Check{
 		ID:        "C12",
 		QuickSecs: 60, ThoroSecs: 300,
-		Rule: "complete product: 7 option kinds (bool, string, int, float64 and the optional-value forms) x 2-3 defaults x *Var or pointer form x 19 environment texts (unset, empty, valid, invalid, mixed case booleans, padded, equal to default, equal to the command-line value) x 7 command-line forms (absent, --n=v, --n v, -n v, bare --n, twice, inside a command) x 3 modes x {option declared at the root, option declared on a command, variable set after New() but before the declaration}; " +
-			"value, Called and CalledAs compared with the three-way precedence rule of the reference model; distinct_nontrivial = distinct in-domain cases",
+		Rule: "complete product: 7 option kinds (bool, string, int, float64 and the optional-value forms) x 2-3 defaults x *Var or pointer form x 19 environment texts (unset, empty, valid, invalid, mixed case booleans, padded, equal to default, equal to the command-line value) x 9 command-line forms (absent, --n=v, --n v, -n v, bare --n, twice, inside a command, before an UnsetOptions wrapper command) x 3 modes x {option declared at the root, option declared on a command, variable set after New() but before the declaration}; " +
+			"value, Called and CalledAs compared with the three-way precedence rule of the reference model, and again after a second Parse of an empty command line on the same object (nothing may change); distinct_nontrivial = distinct in-domain cases",
 		Assume: []string{"other environment texts are not covered; invalid numeric environment text leaves Called unspecified (zone U11) and only the value is compared"},
 		Run: func(c *RunCtx) {
 			res := c.Res
@@ -235,14 +266,14 @@ func init() {
 								}
 								o := od
 								o.Name, o.Kind, o.Var, o.Env = "n", kdef.k, isVar, "VERIF_C12_VAR"
-								def := &ph.Def{Mode: mode, Unknown: 0, LateEnv: variant == 2, Root: ph.CmdDef{Name: "prog", Opts: []ph.OptDef{o, {Name: "other", Kind: ph.Bool}}, Cmds: []*ph.CmdDef{{Name: "c"}}}}
+								def := &ph.Def{Mode: mode, Unknown: 0, LateEnv: variant == 2, Root: ph.CmdDef{Name: "prog", Opts: []ph.OptDef{o, {Name: "other", Kind: ph.Bool}}, Cmds: []*ph.CmdDef{{Name: "c"}, {Name: "w", Unset: true, Unknown: 3}}}}
 								if variant == 1 {
 									def = &ph.Def{Mode: mode, Unknown: 0, Root: ph.CmdDef{Name: "prog", Opts: []ph.OptDef{{Name: "other", Kind: ph.Bool}}, Cmds: []*ph.CmdDef{{Name: "c", Opts: []ph.OptDef{o}}}}}
 								}
 								res.States++
 								v := cliVal(kdef.k)
 								var clis [][]string
-								clis = append(clis, []string{}, []string{"--n"}, []string{"c", "--n"}, []string{"--other"})
+								clis = append(clis, []string{}, []string{"--n"}, []string{"c", "--n"}, []string{"--other"}, []string{"w"}, []string{"w", "-x"})
 								if kdef.k != ph.Bool {
 									clis = append(clis, []string{"--n=" + v}, []string{"--n", v}, []string{"-n", v}, []string{"--n=" + v, "--n=" + v}, []string{"c", "--n=" + v})
 								} else {
@@ -288,6 +319,10 @@ func init() {
 													res.count("in_domain_command_line_overrides_environment", 1)
 												}
 											}
+										}
+										if len(msgs) == 0 {
+											msgs = c12SecondParse(def, env, argv)
+											res.count("second_parse_compared", 1)
 										}
 										if len(msgs) > 0 {
 											res.violate(Violation{Prop: "C12", Msg: fmt.Sprintf("%s  [%s kind=%s default=%v var=%v env=%q argv=%q]", msgs[0], def.ConfigString(), kdef.k, od, isVar, e, argv), Case: newCase("C12", def, env, argv, false), Weight: len(argv), Test: goTest(def, env, argv, msgs[0])})
